@@ -1842,5 +1842,17 @@ def _pred_nested_default_lost(case, failure) -> bool:
     return any(fn.get("sig_defaults") or fn.get("pf_defaults") for pr in progs for fn in pr["funcs"])
 
 
+def _pred_nest_with_bound(case, failure) -> bool:
+    """C10-nested-inner-bound-becomes-required in any disguise: a nest over functions with bound parameters exposes the
+    bound names as inputs of the NestedPipeFunc; later rewrites (add_mapspec_axis, rename, split) then see dependencies
+    that the original pipeline does not have."""
+    ops = [r["op"] for r in case["data"].get("rw", [])]
+    if "nest" not in ops and "simplify" not in ops:
+        return False
+    progs = [case["data"]["prog"]] + ([case["data"]["prog2"]] if case["data"].get("union") and case["data"].get("prog2") else [])
+    return any(fn.get("bound") for pr in progs for fn in pr["funcs"])
+
+
 PREDICATES = {
+    "nest_over_bound_parameters": _pred_nest_with_bound,
     "nested_default_lost_after_rename": _pred_nested_default_lost,}
